@@ -49,12 +49,12 @@ structure Heap where
 
 def Heap.init : Heap := { bufs := fun _ => ⟨0, true, 0, []⟩, nbufs := 0, bug := none }
 
-/-- MIRROR buffer.ref (buffer.go:494-498) -/
+/-- MIRROR buffer.ref (buffer.go:494-499) -/
 def Heap.ref (h : Heap) (b : BufId) : Heap :=
   if (h.bufs b).refc = 0 then { h with bug := some .refDead }
   else { h with bufs := upd h.bufs b { h.bufs b with refc := (h.bufs b).refc + 1 } }
 
-/-- MIRROR buffer.unref (buffer.go:500-511): at zero the storage goes back to the slice pool
+/-- MIRROR buffer.unref (buffer.go:501-514): at zero the storage goes back to the slice pool
     (`data.Reset`, poisoned by the verif hook) and the buffer to `bufferPool.put` -/
 def Heap.unref (h : Heap) (b : BufId) : Heap :=
   if (h.bufs b).refc = 0 then { h with bug := some .underflow }
@@ -62,7 +62,7 @@ def Heap.unref (h : Heap) (b : BufId) : Heap :=
     { h with bufs := upd h.bufs b ⟨0, true, (h.bufs b).puts + 1, List.replicate (h.bufs b).data.length poison⟩ }
   else { h with bufs := upd h.bufs b { h.bufs b with refc := (h.bufs b).refc - 1 } }
 
-/-- MIRROR bufferPool.get (buffer.go:525-546): any pooled buffer (`pick`), else a new one; the
+/-- MIRROR bufferPool.get (buffer.go:527-549) / put (buffer.go:551-559): any pooled buffer (`pick`), else a new one; the
     reference count is stored as 1 and the storage is overwritten (`d` = what gets decoded into it) -/
 def Heap.get (h : Heap) (pick : BufId) (d : List UInt8) : Heap × BufId :=
   let b := if (h.bufs pick).inPool then pick else h.nbufs
@@ -297,7 +297,7 @@ theorem getAll_spec (specs : List (BufId × List UInt8)) : ∀ {h : Heap}, HW h 
 
 /-! ## Pages, references, readers -/
 
-/-- MIRROR `bufferedPage` (buffer.go:555-561): the buffer backing the values, and the other buffers
+/-- MIRROR `bufferedPage` (buffer.go:567-573): the buffer backing the values, and the other buffers
     (offsets, definition and repetition levels). `ptr`: Values read from the page point into
     `values` (byte arrays / fixed-length byte arrays that are not dictionary-indexed). -/
 structure Page where
@@ -334,7 +334,7 @@ structure Alias where
   snap : List UInt8   -- what the caller saw when it got the slice
 deriving DecidableEq, Repr
 
-/-- MIRROR the fields of `FilePages` (file.go:1077-1104) and `columnChunkValueReader`
+/-- MIRROR the fields of `FilePages` (file.go:1078-1105) and `columnChunkValueReader`
     (column_chunk.go:84-89) that take part in the protocol; `gen` is ghost -/
 structure Rdr where
   lastPage  : Option PageId
@@ -349,7 +349,7 @@ structure State where
   pages   : PageId → Page
   npages  : Nat
   rdrs    : RdrId → Rdr
-  det     : RdrId → Bool        -- columnChunkValueReader.detach (row_group.go:218-226), fixed per reader
+  det     : RdrId → Bool        -- columnChunkValueReader.detach (row_group.go:218-227), fixed per reader
   held    : List Claim          -- ghost
   leak    : BufId → Nat         -- ghost: references given up without a decrement (ReleaseAndDetachValues)
   aliases : List Alias          -- ghost
@@ -399,23 +399,23 @@ theorem refs_congr {h : List Claim} {pages pages' : PageId → Page} (b : BufId)
 theorem occ_pos {pg : Page} {b : BufId} (hb : b ∈ pg.all) : 1 ≤ occ pg b := by
   simp only [occ]; exact List.count_pos_iff.2 hb
 
-/-! ## Steps on pages (buffer.go:566-627) with their ghost bookkeeping -/
+/-! ## Steps on pages (buffer.go:575-631) with their ghost bookkeeping -/
 
-/-- MIRROR bufferedPage.Slice = newBufferedPage on the same buffers (buffer.go:566-592) -/
+/-- MIRROR bufferedPage.Slice = newBufferedPage on the same buffers (buffer.go:575-598) -/
 def State.slice (s : State) (o : Owner) (p : PageId) : State :=
   { s with heap := s.heap.refAll (s.pages p).all,
            pages := upd s.pages s.npages (s.pages p), npages := s.npages + 1,
            held := ⟨o, s.npages⟩ :: s.held }
 
-/-- MIRROR bufferedPage.Retain (buffer.go:594-602) -/
+/-- MIRROR bufferedPage.Retain (buffer.go:600-606) -/
 def State.retain (s : State) (o : Owner) (p : PageId) : State :=
   { s with heap := s.heap.refAll (s.pages p).all, held := ⟨o, p⟩ :: s.held }
 
-/-- MIRROR bufferedPage.Release (buffer.go:604-610) -/
+/-- MIRROR bufferedPage.Release (buffer.go:608-614) -/
 def State.release (s : State) (o : Owner) (p : PageId) : State :=
   { s with heap := s.heap.unrefAll (s.pages p).all, held := s.held.erase ⟨o, p⟩ }
 
-/-- MIRROR bufferedPage.ReleaseAndDetachValues (buffer.go:612-627): the values buffer is not
+/-- MIRROR bufferedPage.ReleaseAndDetachValues (buffer.go:616-631): the values buffer is not
     decremented (it is left to the garbage collector) -/
 def State.detachRel (s : State) (o : Owner) (p : PageId) : State :=
   { s with heap := s.heap.unrefAll (s.pages p).others, held := s.held.erase ⟨o, p⟩,
@@ -428,7 +428,7 @@ structure DecodeSpec where
   others : List (BufId × List UInt8)
   ptr    : Bool
 
-/-- MIRROR Column.decodeDataPage + newBufferedPage (column.go:852-922, buffer.go:566-580), net
+/-- MIRROR Column.decodeDataPage + newBufferedPage (column.go:852-922, buffer.go:575-588), net
     effect: every buffer of the new page has been got (1), referenced by the page (2) and released
     by the deferred unref (1) -/
 def State.decode (s : State) (o : Owner) (d : DecodeSpec) : State :=
@@ -880,7 +880,7 @@ theorem transient_inv {s : State} (i : Inv s) (t : BufId × List UInt8) :
   show ((r.1.unref r.2).bufs b).data = _
   rw [(u.2.2.2 b).2 hp', ho1 b hb]
 
-/-! ## FilePages (file.go:1077-1660) -/
+/-! ## FilePages (file.go:1078-1660) -/
 
 def State.setRdr (s : State) (r : RdrId) (x : Rdr) : State := { s with rdrs := upd s.rdrs r x }
 
@@ -915,7 +915,7 @@ theorem setRdr_inv {s : State} (i : Inv s) (r : RdrId) (x : Rdr)
   exact ⟨data_step i i0 rfl (fun a _ => live_of_held (s := s) (s' := s.setRdr r x)
     (fun r' => (hcg r').2) a (fun _ _ h => h)) (fun _ _ _ => rfl), fr⟩
 
-/-- MIRROR `Release(f.lastPage); f.lastPage = nil` (file.go:1132-1133, 1269-1271, 1649-1650) -/
+/-- MIRROR `Release(f.lastPage); f.lastPage = nil` (file.go:1133-1134, 1270-1272, 1650-1651) -/
 def State.releaseLast (s : State) (r : RdrId) : State :=
   match (s.rdrs r).lastPage with
   | none => s
@@ -944,7 +944,7 @@ theorem releaseLast_inv {s : State} (i : Inv s) (r : RdrId) :
     intro c hc hne
     exact (List.mem_erase_of_ne (hne p)).2 hc
 
-/-- MIRROR `f.lastPage = page; Retain(page)` (file.go:1273-1276) -/
+/-- MIRROR `f.lastPage = page; Retain(page)` (file.go:1274-1276) -/
 def State.retainLast (s : State) (r : RdrId) (p : PageId) : State :=
   (s.retain (.last r) p).setRdr r { s.rdrs r with lastPage := some p }
 
@@ -960,9 +960,9 @@ theorem retainLast_inv {s : State} (i : Inv s) (r : RdrId) {o : Owner} {p : Page
   exact ⟨b.1, a.2.trans b.2, rfl, fun c hc => List.mem_cons_of_mem _ hc⟩
 
 inductive Action where
-  | ret       -- return the decoded page (file.go:1285-1298)
-  | skip      -- the page lies before the row that was seeked to: Release, next page (file.go:1292-1294, 1310-1311)
-  | sliceRet  -- return a Slice of it and Release the page (file.go:1300-1303, 1313-1316)
+  | ret       -- return the decoded page (file.go:1279-1299)
+  | skip      -- the page lies before the row that was seeked to: Release, next page (file.go:1292-1295, 1310-1312)
+  | sliceRet  -- return a Slice of it and Release the page (file.go:1301-1304, 1313-1318)
 deriving DecidableEq, Repr
 
 /-- one turn of the loop of FilePages.ReadPage -/
@@ -983,7 +983,7 @@ theorem transients_inv (ts : List (BufId × List UInt8)) : ∀ {s : State}, Inv 
     have b := ih a.1
     exact ⟨b.1, a.2.trans b.2⟩
 
-/-- MIRROR one turn of the loop of FilePages.ReadPage (file.go:1184-1319) for a consumer `o` -/
+/-- MIRROR one turn of the loop of FilePages.ReadPage (file.go:1192-1321) for a consumer `o` -/
 def State.iter (s : State) (r : RdrId) (o : Owner) (it : Iter) : State × Option PageId :=
   let s1 := s.transients it.transients
   match it.page with
@@ -1067,7 +1067,7 @@ theorem loop_post (its : List Iter) : ∀ {s : State}, Inv s → ∀ (r : RdrId)
       exact ⟨b.inv, a.fr.trans b.fr, fun q h' =>
         ⟨(b.ret q h').1, Nat.le_trans a.fr.np (b.ret q h').2⟩⟩
 
-/-- MIRROR FilePages.ReadPage (file.go:1162-1320). `within`: the row seeked to lies in the cached
+/-- MIRROR FilePages.ReadPage (file.go:1169-1322); the cached-page preamble is file.go:1178-1190. `within`: the row seeked to lies in the cached
     page (`f.skip < numRows`); `its`: the turns of the loop until a page is returned. -/
 def State.readPage (s : State) (r : RdrId) (o : Owner) (within : Bool) (its : List Iter) :
     State × Option PageId :=
@@ -1096,8 +1096,8 @@ theorem readPage_post {s : State} (i : Inv s) (r : RdrId) {o : Owner}
         exact ⟨b.inv, a.2.trans b.fr, fun q h => ⟨(b.ret q h).1, Nat.le_trans a.2.np (b.ret q h).2⟩⟩
     · exact loop_post its i r ho
 
-/-- MIRROR FilePages.SeekToRow (file.go:1568-1645), the part that matters for ownership: nothing
-    is released; when the row lies in the cached page the flag is set (file.go:1598-1601) -/
+/-- MIRROR FilePages.SeekToRow (file.go:1550-1636), the part that matters for ownership: nothing
+    is released; when the row lies in the cached page the flag is set (file.go:1591-1595) -/
 def State.seekPages (s : State) (r : RdrId) (same : Bool) : State :=
   if (s.rdrs r).closed then s
   else if same && (s.rdrs r).lastPage.isSome then s.setRdr r { s.rdrs r with serveLast := true }
@@ -1112,7 +1112,7 @@ theorem seekPages_inv {s : State} (i : Inv s) (r : RdrId) (same : Bool) :
     · exact setRdr_inv i r _ rfl rfl (fun p h => i.last r p h)
     · exact ⟨i, Frame.refl s⟩
 
-/-- MIRROR FilePages.Close (file.go:1638-1656) -/
+/-- MIRROR FilePages.Close (file.go:1639-1657) -/
 def State.closePages (s : State) (r : RdrId) : State :=
   (s.releaseLast r).setRdr r { (s.releaseLast r).rdrs r with closed := true, serveLast := false }
 
@@ -1335,7 +1335,7 @@ structure Round where
   its    : List Iter
   yields : Bool   -- the current page still has values (return them) / is exhausted (clear, next turn)
 
-/-- MIRROR columnChunkValueReader.ReadValues (column_chunk.go:124-150) -/
+/-- MIRROR columnChunkValueReader.ReadValues (column_chunk.go:123-150) -/
 def State.vrRead (s : State) (r : RdrId) : List Round → State
   | [] => s
   | rd :: rest =>
